@@ -177,3 +177,44 @@ K("c13_normalize", "stackvec", C13P, "normalize / is_normalized on every wf vect
 K("c13_from_u64", "stackvec", C13P, "from_u64(x): empty for 0, single limb otherwise", [SV + "from_u64", "bigint::from_u64"], features=NOALLOC)
 K("c13_eq_cmp_short", "stackvec", C13P, "eq == sequence equality; cmp == length-first then most-significant-limb-first; for normalised vectors == numeric order", [SV + "eq", SV + "cmp", SV + "partial_cmp", "bigint::compare"], strength="bounded", bound="vectors of <= 3 limbs", features=NOALLOC)
 K("c13_cmp_bounded8", "stackvec", C13P, "compare on wf vectors up to 8 limbs (symbolic lengths): different lengths by length; equal lengths by the most significant differing limb", ["bigint::compare"], strength="bounded", bound="vectors of <= 8 limbs", features=NOALLOC, timeout=600)
+
+# --------------------------------------------------------------------------- C12 (bigint)
+BI = "bigint::"
+C12P = ["C12", "C04", "C01", "C02", "C05"]
+BOTH_VEC = ["default", "alloc", "compact"]
+K("c12_scalar_add", "bigint", C12P, "scalar_add(x,y) == (x+y mod 2^64, carry) for all x,y", [BI + "scalar_add"], features=BOTH_VEC)
+K("c12_scalar_mul", "bigint", C12P, "scalar_mul(x,y,c): lo + hi*2^64 == x*y + c exactly, all x,y,c", [BI + "scalar_mul"], features=BOTH_VEC, timeout=900)
+K("c12_u64_to_hi64", "bigint", C12P, "u64_to_hi64_1/2: top 64 bits of the 64/128-bit value (r0 != 0) and the lower-bits flag", [BI + "u64_to_hi64_1", BI + "u64_to_hi64_2"], features=BOTH_VEC)
+K("c12_small_add_from", "bigint", C12P, "small_add_from(x,y,start): value' = value + y*2^(64 start), start <= len", [BI + "small_add_from", BI + "small_add"], strength="bounded", bound="x <= 3 limbs", features=BOTH_VEC)
+K("c12_small_mul", "bigint", C12P, "small_mul(x,y): value' = value*y (scalar_mul replaced by its contract over an uninterpreted product)", [BI + "small_mul"], strength="bounded", bound="x <= 3 limbs", features=BOTH_VEC, zflags=("stubbing",), timeout=900)
+K("c12_capacity_edge_small_ops", "bigint", C12P + ["C08", "C13"], "at 62 limbs a carry out of small_add/small_mul/shl_bits returns None (no write outside the buffer); at 61 limbs it is pushed", [BI + "small_add", BI + "small_mul", BI + "shl_bits"], strength="capacity", bound="lengths 61 and 62, all limbs 2^64-1", features=["default", "compact"], timeout=1200, tier="thorough")
+for lx in range(4):
+    K("c12_large_add_from_x%d" % lx, "bigint", C12P, "large_add_from(x,y,start): value' = value + val(y)*2^(64 start)", [BI + "large_add_from", BI + "large_add"], strength="bounded", bound="x of %d limbs, y <= 3 limbs, start <= 2" % lx, features=BOTH_VEC, timeout=900, tier="quick" if lx in (1, 2) else "thorough")
+for lx, ly in ((1, 1), (1, 2), (2, 1), (2, 2)):
+    K("c12_long_mul_%dx%d" % (lx, ly), "bigint", C12P, "long_mul(x,y): value == val(x)*val(y), normalised (scalar_mul by contract over an uninterpreted commutative product)", [BI + "long_mul"], strength="bounded", bound="x of %d, y of %d limbs" % (lx, ly), features=BOTH_VEC, zflags=("stubbing",), timeout=1200, tier="quick" if (lx, ly) == (1, 1) else "thorough")
+    K("c12_large_mul_%dx%d" % (lx, ly), "bigint", C12P, "large_mul(x,y): value' = value*val(y) (one-limb y via small_mul, otherwise long_mul(y,x))", [BI + "large_mul"], strength="bounded", bound="x of %d, y of %d limbs" % (lx, ly), features=BOTH_VEC, zflags=("stubbing",), timeout=1200, tier="quick" if (lx, ly) in ((1, 1), (2, 1)) else "thorough")
+K("c12_shl_bits", "bigint", C12P, "shl_bits(x,n), 1<=n<=63: value' = value*2^n", [BI + "shl_bits"], strength="bounded", bound="x <= 3 limbs", features=BOTH_VEC)
+for ln in range(4):
+    K("c12_shl_limbs_len%d" % ln, "bigint", C12P + ["C08", "C16"], "shl_limbs(x,n): None iff n+len > 62 (contents unchanged); else limbs moved up by n, zero filled", [BI + "shl_limbs"], strength="bounded", bound="x of %d limbs, n in {1, 17, capacity edge -1/0/+1, 70}" % ln, features=["default", "compact"], timeout=900, tier="quick" if ln in (0, 2) else "thorough")
+for ln in range(3):
+    K("c12_shl_len%d" % ln, "bigint", C12P, "shl(x,n): value' = value*2^n (bits then limbs)", [BI + "shl"], strength="bounded", bound="x of %d limbs, n in [0,64) u [64,128) u [192,256)" % ln, features=BOTH_VEC, timeout=1800, tier="thorough")
+for ln in range(1, 5):
+    K("c12_hi64_bit_length_%d" % ln, "bigint", C12P + ["C06"], "hi64 / bit_length / leading_zeros on normalised vectors: top 64 bits of the value, flag == any lower bit set (all lower limbs), bit length of the value", [BI + "hi64", BI + "nonzero", BI + "bit_length", BI + "leading_zeros", BI + "rview"], strength="bounded", bound="%d limbs" % ln, features=BOTH_VEC, timeout=900, tier="quick" if ln in (2, 3) else "thorough")
+K("c12_hi64_empty", "bigint", C12P, "empty vector: hi64 == (0,false), bit_length == 0", [BI + "hi64", BI + "bit_length"], features=BOTH_VEC)
+K("c12_pow_factors", "bigint", C12P, "pow(x,exp) for every exp <= 1200, small_mul/large_mul replaced by ghost recorders: every factor is an exact power of five (5^135 constant, 5^27, table 5^k) and the exponents sum to exp", [BI + "pow"], strength="capacity", bound="exp <= 1200 (the slow path needs <= 1112)", features=BOTH_VEC, zflags=("stubbing",), timeout=900)
+K("c12_bigint_pow_dispatch", "bigint", C12P, "Bigint::pow(base,exp), base in {2,5,10}: multiplies by 5^exp iff 5|base, shifts by exp iff 2|base", [BI + "Bigint::pow"], features=BOTH_VEC, zflags=("stubbing",))
+
+# --------------------------------------------------------------------------- P-NUM / G-DISPATCH (parse.rs)
+PN = ["parse::parse_number", "parse::parse_number_fast", "parse::into_i32"]
+PNP = ["C01", "C02", "C04", "C06", "C07", "C10", "C05", "C09"]
+PNUM_CASES = ['pnum_i0_f0', 'pnum_i1_f0', 'pnum_i18_f0', 'pnum_i19_f0', 'pnum_i20_f0', 'pnum_i21_f0', 'pnum_i23_f0', 'pnum_i0_f1_z0', 'pnum_i0_f1_z1', 'pnum_i0_f2_z1', 'pnum_i0_f19_z0', 'pnum_i0_f19_z5', 'pnum_i0_f19_z19', 'pnum_i0_f20_z0', 'pnum_i0_f20_z1', 'pnum_i0_f20_z20', 'pnum_i0_f21_z1', 'pnum_i0_f21_z2', 'pnum_i0_f23_z0', 'pnum_i0_f23_z3', 'pnum_i0_f23_z4', 'pnum_i0_f23_z5', 'pnum_i0_f23_z22', 'pnum_i1_f1', 'pnum_i1_f18', 'pnum_i1_f19', 'pnum_i1_f20', 'pnum_i10_f9', 'pnum_i10_f10', 'pnum_i10_f12', 'pnum_i18_f1', 'pnum_i18_f2', 'pnum_i18_f4', 'pnum_i19_f1', 'pnum_i19_f3', 'pnum_i20_f1', 'pnum_i21_f3', 'pnum_i5_f19']
+PNUM_QUICK = ['pnum_i0_f0', 'pnum_i0_f19_z5', 'pnum_i0_f1_z1', 'pnum_i0_f20_z1', 'pnum_i0_f20_z20', 'pnum_i0_f21_z2', 'pnum_i0_f23_z4', 'pnum_i10_f10', 'pnum_i18_f2', 'pnum_i19_f0', 'pnum_i19_f1', 'pnum_i1_f18', 'pnum_i1_f19', 'pnum_i20_f0', 'pnum_i20_f1', 'pnum_i23_f0']
+for nm in PNUM_CASES:
+    K(nm, "parse", PNP, "parse_number(int, frac, e) == spec_parse_number: mantissa = first 19 significant digits, many_digits <=> 20th significant digit exists, exponent = sat(e + dropped integer digits - consumed fraction digits), for all digit values and ALL i32 exponents", PN,
+      strength="bounded", bound="digit-count shape %s (i = integer digits, f = fraction digits, z = leading fraction zeros), all digit values symbolic" % nm[5:], features=["default", "compact"], timeout=900, tier="quick" if nm in PNUM_QUICK else "thorough")
+K("pnum_into_i32_add_digit", "parse", PNP, "into_i32 clamps usize to i32::MAX; add_digit is checked x*10+d", ["parse::into_i32", "parse::add_digit"], features=["default", "compact"])
+for t in ("f64", "f32"):
+    K("gdispatch_parse_float_" + t, "parse", ["C01" if t == "f64" else "C02", "C04", "C07", "C16", "C05", "C09", "C10"],
+      "parse_float (generic code, abstract Float with the real %s constants; parse_number / moderate_path / slow replaced by ghost recorders returning contract-constrained symbolic results): fast-path value returned as is; else definite moderate result packed unchanged with no slow call; else exactly one slow call with (num, estimate un-biased by 32768, the original iterators) and its result packed unchanged" % t,
+      ["parse::parse_float", "parse::moderate_path", "extended_float::extended_to_float"], features=["default", "compact"], zflags=("stubbing",), timeout=600)
+K("gdispatch_moderate_is_lemire", "parse", ["C01", "C02", "C05"], "moderate_path == lemire in non-compact builds (smoke-size domain: the wrapper has no logic)", ["parse::moderate_path"], strength="bounded", bound="mantissa < 1000, exponent 0..=5", features=["default", "alloc"], timeout=600)
